@@ -194,7 +194,7 @@ def blue_actions(v) -> List[Dict]:
     add("node-folder-scan", node_name="database_server", folder_name="database")
     add("node-folder-restore", node_name="database_server", folder_name="database")
     add("node-folder-scan", node_name="backup_server", folder_name="nope")
-    for node in ("client_1", "database_server", "ghost", gw, "switch_1"):
+    for node in ("client_1", "database_server", "backup_server", "web_server", "ghost", gw, "switch_1"):
         for a in ("node-os-scan", "node-shutdown", "node-startup", "node-reset"):
             add(a, node_name=node)
     add("host-nic-disable", node_name="client_1", nic_num=1)
@@ -277,9 +277,12 @@ def _blue(v):
         {"hostname": "web_server", "services": [{"service_name": "web-server"}], "applications": [{"application_name": "database-client"}]},
         {"hostname": "database_server", "services": [{"service_name": "database-service"}, {"service_name": "ftp-client"}],
          "folders": [{"folder_name": "database", "files": [{"file_name": "database.db"}]}]},
-        {"hostname": "backup_server", "services": [{"service_name": "ftp-server"}],
-         "folders": [{"folder_name": "docs", "files": [{"file_name": "a.txt"}, {"file_name": "b.txt"}]}, {"folder_name": "newdir"}]},
-        {"hostname": "client_1", "applications": [{"application_name": "web-browser"}, {"application_name": "data-manipulation-bot"}]},
+        # more entries than num_services / num_folders / num_files allow (legal: the surplus is truncated with a warning)
+        {"hostname": "backup_server", "services": [{"service_name": "ftp-server"}, {"service_name": "dns-server"}, {"service_name": "ntp-client"}],
+         "folders": [{"folder_name": "docs", "files": [{"file_name": "a.txt"}, {"file_name": "b.txt"}, {"file_name": "c.txt"}]},
+                     {"folder_name": "newdir"}, {"folder_name": "surplus"}]},
+        {"hostname": "client_1", "applications": [{"application_name": "web-browser"}, {"application_name": "data-manipulation-bot"},
+                                                  {"application_name": "database-client"}]},
         {"hostname": "client_2", "applications": [{"application_name": "dos-bot"}, {"application_name": "database-client"}],
          "folders": [{"folder_name": "downloads", "files": [{"file_name": "cat.png"}]}]},
         {"hostname": "ghost_host"},
